@@ -18,6 +18,7 @@ def table (group : String) : Option (List (String × OpS)) :=
   | "sim" => some (opsSim ++ opsDual)
   | "tm" => some opsTm
   | "rand" => some opsRand
+  | "simreal" => some opsSimReal
   | "text" => some opsText
   | "cli" => some opsCli
   | _ => none
